@@ -444,14 +444,14 @@ def adjStep (a : Adj) : AdjOp → Adj
   | .freeze => a.freezeAll
 
 /-- reference: every added entry of `src`, in insertion order, whose edge id was not marked deleted
-at `src` while `src` had an adjacency list -/
+at `src` (at any time: a tombstone may precede the insertion, 7783d93) -/
 structure AdjRef where
   entries : List (Nat × Entry) := []      -- (src, (dst, eid))
   deleted : List (Nat × Nat) := []        -- (src, eid)
 
 def adjStepRef (a : AdjRef) : AdjOp → AdjRef
   | .add s d e => { a with entries := a.entries ++ [(s, (d, e))] }
-  | .del s e => if a.entries.any (fun x => x.1 == s) then { a with deleted := (s, e) :: a.deleted } else a
+  | .del s e => { a with deleted := (s, e) :: a.deleted }
   | _ => a
 
 def AdjRef.edgesFrom (a : AdjRef) (src : Nat) : List Entry :=
